@@ -53,7 +53,8 @@ def run(prop, tier, seed, scratch, t0):
             dr += ds
         tl.insert(0, f1.result())
     # every edge of the exhaustively checked (small) graph of Update.tla
-    rg = vlib.tlc(scratch, "Update", CFG % (mc + ("",)), name="Update_graph", workers=1,
+    # (always the small constants: with two updates per party in flight the dumped graph has > 8 GB)
+    rg = vlib.tlc(scratch, "Update", CFG % ((2, 2, 1) + ("",)), name="Update_graph", workers=1,
                   extra=["-dump", "dot,actionlabels", "graph.dot"], timeout=3000)
     if not rg["ok"]:
         raise vlib.Inconclusive("TLC reports %s in Update.tla itself" % rg["violated"])
